@@ -222,22 +222,24 @@ def elossOn (inp : StepIn α) : Bool :=
 def alongStep (e : α) (inp : StepIn α) : ElossOut α :=
   elossApplier (elossOn inp) inp.psaBoundary inp.hasAtRest e (0 : α) (calcOf e inp)
 
-/-- the post-step action applied to the state `a` left by the along-step (skipped when
-    ElossApplier killed the track: the range action is implicit) -/
+/-- the post-step action applied to the state `a` left by the along-step -/
+def postAct (P : Particles α) (pid : Nat) (inp : StepIn α) (a : ElossOut α) : StepRec α :=
+  match inp.post with
+  | .none => ⟨a.e, a.dep, [], .alive, false, false⟩
+  | .boundary exits => ⟨a.e, a.dep, [], if exits then .escaped else .alive, false, false⟩
+  | .trackingCut =>
+    ⟨(trackingCut P pid a.e a.dep).1, (trackingCut P pid a.e a.dep).2, [], .killed, true, false⟩
+  | .interact r =>
+    ⟨(applyInteraction P inp.postCut a.e a.dep r).e, (applyInteraction P inp.postCut a.e a.dep r).dep,
+      keepSecs (applyInteraction P inp.postCut a.e a.dep r).secs,
+      if (applyInteraction P inp.postCut a.e a.dep r).killed then .killed else .alive,
+      (applyInteraction P inp.postCut a.e a.dep r).killed, false⟩
+
+/-- … skipped when ElossApplier killed the track (the range action is implicit) -/
 def postStep (P : Particles α) (pid : Nat) (inp : StepIn α) (a : ElossOut α) : StepRec α :=
   match a.stop with
   | .killedRange => ⟨a.e, a.dep, [], .killed, false, true⟩
-  | _ =>
-    match inp.post with
-    | .none => ⟨a.e, a.dep, [], .alive, false, false⟩
-    | .boundary exits => ⟨a.e, a.dep, [], if exits then .escaped else .alive, false, false⟩
-    | .trackingCut =>
-      ⟨(trackingCut P pid a.e a.dep).1, (trackingCut P pid a.e a.dep).2, [], .killed, true, false⟩
-    | .interact r =>
-      ⟨(applyInteraction P inp.postCut a.e a.dep r).e, (applyInteraction P inp.postCut a.e a.dep r).dep,
-        keepSecs (applyInteraction P inp.postCut a.e a.dep r).secs,
-        if (applyInteraction P inp.postCut a.e a.dep r).killed then .killed else .alive,
-        (applyInteraction P inp.postCut a.e a.dep r).killed, false⟩
+  | _ => postAct P pid inp a
 
 /-- one step of one track -/
 def stepLedger (P : Particles α) (pid : Nat) (e : α) (inp : StepIn α) : StepRec α :=
